@@ -152,17 +152,17 @@ Qed.
 
 (* the polled task leaves its current lookup (hit, or supplier answered): its waiter entry is
    gone, the lock of k is released, the wake is still to be done *)
-Lemma leave_lookup : forall p s s' x x0 t k rest ph,
+Lemma leave_lookup : forall p s s' x x0 t k rest ph rest',
   p t = (k :: rest, ph) -> WInv (Some t) None p s x ->
   (forall k0, k0 <> k -> lock s' k0 = lock s k0) ->
   (forall u, u <> t -> wk x0 u = wk x u) -> wk x0 t = None -> (forall u, flag x0 u = flag x u) ->
-  WInv (Some t) (Some k) (upd p t (rest, Start)) s' x0.
+  WInv (Some t) (Some k) (upd p t (rest', Start)) s' x0.
 Proof.
-  intros p s s' x x0 t k rest ph Hp [W1 W2 W3 W4 W5] Hlock Hwk Hwt Hfl. split.
+  intros p s s' x x0 t k rest ph rest' Hp [W1 W2 W3 W4 W5] Hlock Hwk Hwt Hfl. split.
   - intros u k0 Hw. destruct (Nat.eq_dec u t) as [E|N].
     + subst u. destruct Hw as (r & Hw). rewrite upd_same in Hw.
-      destruct rest; inversion Hw.
-    + rewrite Hwk by assumption. apply W1. now apply (waiting_upd_other p t (rest, Start)).
+      destruct rest'; inversion Hw.
+    + rewrite Hwk by assumption. apply W1. now apply (waiting_upd_other p t (rest', Start)).
   - intros u k0 i w E. destruct (Nat.eq_dec u t) as [Eu|N].
     + subst u. rewrite Hwt in E. discriminate.
     + rewrite Hwk in E by assumption. apply waiting_upd_other; [assumption|]. now apply (W2 u k0 i w).
